@@ -440,7 +440,7 @@ class Exec:
         if tree[0] == 'index' and st.get('@arrays'):
             try:
                 key0, ty0 = self.place_key(st, tree)
-                if isinstance(key0, tuple) and isinstance(key0[1], str) and key0[1] in st['@arrays']:
+                if isinstance(key0, tuple) and self.key_str(key0[1]) in st['@arrays']:
                     return self.read_key(st, key0, ty0)
             except Refuse:
                 pass
@@ -570,8 +570,9 @@ class Exec:
         if isinstance(key, tuple):      # ('@idx', basekey, indexVal)
             _, bk, iv = key
             arrs = st.get('@arrays', {})
-            if isinstance(bk, str) and bk in arrs:
-                return Val(z3.Select(arrs[bk], iv.t), ty or arrs.get('@ty:' + bk, 'i32'))
+            bks = self.key_str(bk)
+            if bks in arrs:
+                return Val(z3.Select(arrs[bks], iv.t), ty or 'i32')
             flat = f'{self.key_str(bk)}[{self.idx_str(iv)}]'
             if flat in st:
                 return st[flat]
@@ -661,8 +662,15 @@ class Exec:
         if isinstance(key, tuple):
             _, bk, iv = key
             arrs = st.get('@arrays', {})
-            if isinstance(bk, str) and bk in arrs:
-                arrs = dict(arrs); arrs[bk] = z3.Store(arrs[bk], iv.t, v.t); st['@arrays'] = arrs
+            bks = self.key_str(bk)
+            if bks in arrs:
+                arrs = dict(arrs); arrs[bks] = z3.Store(arrs[bks], iv.t, v.t); st['@arrays'] = arrs
+                return
+            if self.cut_loops and self.lazy_arrays and self.concrete(iv) is None and isinstance(v, Val) and not isinstance(v, (Ref, Opaque)) and v.ty in INT and self.mode == 'bv':
+                # skeleton mode: an array written at a symbolic index becomes a z3 array created on demand
+                arrs = dict(arrs)
+                arrs[bks] = z3.Store(z3.Array('mem:' + bks, z3.BitVecSort(iv.t.size()), z3.BitVecSort(INT[v.ty][0])), iv.t, v.t)
+                st['@arrays'] = arrs
                 return
             if self.concrete(iv) is None:
                 if not self.cut_loops:
@@ -1139,6 +1147,7 @@ class Exec:
 
     checked = True
     cut_loops = False
+    lazy_arrays = False
 
 
 # --------------------------------------------------------------------------- solving
